@@ -15,6 +15,12 @@ if not checks:
 patch = os.path.join(d, "patch.diff")
 assert subprocess.run(["git", "-C", "/repo", "status", "--porcelain"], capture_output=True, text=True).stdout.strip() == "", "/repo not clean"
 subprocess.check_call(["git", "-C", "/repo", "apply", patch])
+# evidence files describe runs on the unchanged tree: keep them out of mutant runs
+saved = {}
+for c in checks:
+    ef = f"/verif/evidence/{c}.json"
+    if os.path.exists(ef):
+        saved[ef] = open(ef).read()
 try:
     for c in checks:
         tier = os.environ.get("SEED_TIER", "quick")
@@ -24,3 +30,5 @@ try:
         print(os.path.basename(d), c, f"exit={p.returncode}", f"violations_lines={len(vio)}", (vio[0] if vio else lines[-1] if lines else "")[:160], flush=True)
 finally:
     subprocess.check_call(["git", "-C", "/repo", "checkout", "--", "."])
+    for ef, txt in saved.items():
+        open(ef, "w").write(txt)
